@@ -52,6 +52,7 @@ class Group:
         self.attrs = []  # (file, fn_regex_name, [attr lines])
         self.extra_items = []  # (file, text) appended at top level of file
         self.kani_norm = {}
+        self.separate = False
         self.strip_tracing = []  # files in which tracing attributes / macro statements are removed (K1)
         self.harnesses = []
         self._parse()
@@ -66,6 +67,8 @@ class Group:
             s = ln.strip()
             if s.startswith("//@ target:"):
                 self.target = s.split(":", 1)[1].strip()
+            elif s.startswith("//@ separate"):
+                self.separate = True   # spliced and run in its own scratch copy (its stubs / contracts would clash with another group's)
             elif s.startswith("//@ strip-tracing "):
                 self.strip_tracing.append(s.split(None, 2)[2].strip())
             elif s.startswith("//@ attrs "):
@@ -299,26 +302,37 @@ def run_kani(prop, group_names, tier, timeout=1500, jobs=16, only=None, keep_scr
     if not selected:
         return [], {"cmd": "", "wall": 0.0, "scratch": None}
     used_groups = [g for g in groups if any(h.group is g for h in selected)]
-    sd = scratch_dir("kani-" + prop)
-    repo = copy_repo(os.path.join(sd, "repo"))
-    splice(repo, used_groups)
     if harness_timeout is None:
         harness_timeout = int(os.environ.get("VERIF_HARNESS_TIMEOUT", "150" if tier == "quick" else "600"))
-    cmd = kani_cmd([h.full for h in selected], jobs=jobs, harness_timeout=harness_timeout)
-    log("[kani] %s: %d harnesses: %s" % (prop, len(selected), " ".join(h.name for h in selected)))
-    rc, out, wall = run(cmd, cwd=repo, timeout=timeout, rss_gb=float(os.environ.get("VERIF_RSS_GB", "40")))
-    write(os.path.join(CACHE, "logs", "kani-%s-%s.log" % (prop, tier)), out)
-    info = {"cmd": " ".join(cmd), "wall": wall, "scratch": repo, "rc": rc, "normalisations": {}}
-    for g in used_groups:
-        for k, n in g.kani_norm.items():
-            info["normalisations"][k] = n
-    if rc is None:
-        raise Undecided("kani run exceeded time/memory limit (%ds)" % timeout)
-    if "error: could not compile" in out or re.search(r"^error(\[E\d+\])?:", out, re.M) and "VERIFICATION" not in out:
-        errs = "\n".join(l for l in out.splitlines() if l.startswith("error"))[:2000]
-        raise Undecided("kani build failed (extraction/splice no longer type-checks):\n" + errs)
-    results = parse_terse(out, selected)
-    missing = [r.h.name for r in results if r.status is None]
-    if missing:
-        raise Undecided("kani produced no verdict for: %s (see .cache/logs)" % ", ".join(missing))
-    return results, info
+    # groups marked `//@ separate` get their own scratch copy and cargo-kani invocation
+    batches = [[g for g in used_groups if not g.separate]] + [[g] for g in used_groups if g.separate]
+    batches = [b for b in batches if b]
+    all_results, info = [], {"cmd": "", "wall": 0.0, "scratch": None, "rc": 0, "normalisations": {}}
+    for bi, batch in enumerate(batches):
+        sel = [h for h in selected if h.group in batch]
+        sd = scratch_dir("kani-%s-%d" % (prop, bi))
+        repo = copy_repo(os.path.join(sd, "repo"))
+        splice(repo, batch)
+        cmd = kani_cmd([h.full for h in sel], jobs=jobs, harness_timeout=harness_timeout)
+        log("[kani] %s: %d harnesses: %s" % (prop, len(sel), " ".join(h.name for h in sel)))
+        rc, out, wall = run(cmd, cwd=repo, timeout=timeout, rss_gb=float(os.environ.get("VERIF_RSS_GB", "40")))
+        write(os.path.join(CACHE, "logs", "kani-%s-%s%s.log" % (prop, tier, "" if bi == 0 else "-%d" % bi)), out)
+        info["cmd"] = (info["cmd"] + " ; " if info["cmd"] else "") + " ".join(cmd)
+        info["wall"] += wall
+        info["scratch"] = info["scratch"] or repo
+        for g in batch:
+            for k, n in g.kani_norm.items():
+                info["normalisations"][k] = n
+        if rc is None:
+            raise Undecided("kani run exceeded time/memory limit (%ds)" % timeout)
+        if "error: could not compile" in out or re.search(r"^error(\[E\d+\])?:", out, re.M) and "VERIFICATION" not in out:
+            errs = "\n".join(l for l in out.splitlines() if l.startswith("error"))[:2000]
+            raise Undecided("kani build failed (extraction/splice no longer type-checks):\n" + errs)
+        results = parse_terse(out, sel)
+        missing = [r.h.name for r in results if r.status is None]
+        if missing:
+            raise Undecided("kani produced no verdict for: %s (see .cache/logs)" % ", ".join(missing))
+        for r in results:
+            r.scratch = repo
+        all_results += results
+    return all_results, info
